@@ -545,8 +545,211 @@ fn loca_workload(ctx: &mut Ctx, loca: &read_fonts::tables::loca::Loca, origin: &
     }
 }
 
+// ---------------------------------------------------------------- gvar (builder API, semantic read-back)
+
+use font_types::{F2Dot14, GlyphId};
+use write_fonts::tables::gvar::{GlyphDelta, GlyphDeltas, GlyphVariations, Gvar, Tent};
+
+struct GvVar {
+    tents: Vec<(i16, Option<(i16, i16)>)>,
+    deltas: Vec<(i16, i16, bool)>,
+}
+
+fn implied(peak: i16) -> (i16, i16) {
+    (peak.min(0), peak.max(0))
+}
+
+fn gvar_generate(rng: &mut Rng, big: bool) -> (u16, Vec<Vec<GvVar>>) {
+    let axes = 1 + rng.usize(3);
+    let n_glyphs = if big { 3 } else { 1 + rng.usize(6) };
+    const COORDS: &[i16] = &[-0x4000, -0x2000, 0, 0x2000, 0x4000, 0x1000, -0x1000];
+    // a small pool of peaks so that tuples get shared between glyphs
+    let peaks: Vec<Vec<i16>> = (0..3).map(|_| (0..axes).map(|_| *rng.pick(COORDS)).collect()).collect();
+    let mut glyphs = vec![];
+    for gi in 0..n_glyphs {
+        let n_points = if big { 9000 } else { *rng.pick(&[0usize, 1, 2, 3, 5, 8, 13, 64, 65, 300]) };
+        let n_vars = if big { 3 } else if n_points == 0 { rng.usize(2) } else { rng.usize(4) };
+        let mut vars = vec![];
+        // choose one "sparseness pattern" that several variations may share (shared point numbers)
+        let pattern: Vec<bool> = (0..n_points).map(|_| rng.chance(6, 10)).collect();
+        for _ in 0..n_vars {
+            let peak: Vec<i16> = if rng.chance(7, 10) { rng.pick(&peaks).clone() } else { (0..axes).map(|_| *rng.pick(COORDS)).collect() };
+            let with_inter = rng.chance(3, 10);
+            let tents = peak
+                .iter()
+                .map(|p| {
+                    if with_inter && rng.bool() {
+                        let (lo, hi) = implied(*p);
+                        let a = (lo as i32 - rng.below(0x1000) as i32).clamp(-0x4000, 0x4000) as i16;
+                        let b = (hi as i32 + rng.below(0x1000) as i32).clamp(-0x4000, 0x4000) as i16;
+                        (*p, Some((a, b)))
+                    } else {
+                        (*p, None)
+                    }
+                })
+                .collect();
+            let mode = if big { 0 } else { rng.below(4) };
+            let deltas = (0..n_points)
+                .map(|i| {
+                    let v = |rng: &mut Rng| match if big { 3 } else { rng.below(4) } {
+                        0 => 0,
+                        1 => rng.range(-63, 63) as i16,
+                        2 => *rng.pick(I16_BOUNDS),
+                        _ => rng.range(-2000, 2000) as i16,
+                    };
+                    let req = match mode {
+                        0 => true,
+                        1 => pattern[i],
+                        2 => rng.chance(1, 4),
+                        _ => false,
+                    };
+                    (v(rng), v(rng), req)
+                })
+                .collect();
+            vars.push(GvVar { tents, deltas });
+        }
+        glyphs.push(vars);
+    }
+    (axes as u16, glyphs)
+}
+
+fn gvar_case(ctx: &mut Ctx, rng: &mut Rng, idx: usize, big: bool) {
+    ctx.eval();
+    ctx.count("type:Gvar:variants", 1);
+    let (axes, glyphs) = gvar_generate(rng, big);
+    let f = F2Dot14::from_bits;
+    let vars: Vec<GlyphVariations> = glyphs
+        .iter()
+        .enumerate()
+        .map(|(gi, vs)| {
+            GlyphVariations::new(
+                GlyphId::new(gi as u32),
+                vs.iter()
+                    .map(|v| {
+                        GlyphDeltas::new(
+                            v.tents.iter().map(|(p, i)| Tent::new(f(*p), i.map(|(a, b)| (f(a), f(b))))).collect(),
+                            v.deltas.iter().map(|(x, y, r)| GlyphDelta::new(*x, *y, *r)).collect(),
+                        )
+                    })
+                    .collect(),
+            )
+        })
+        .collect();
+    let describe = || {
+        json!({"type": "Gvar", "case_index": idx, "axes": axes,
+               "glyphs": glyphs.iter().map(|g| json!({"variations": g.len(), "points": g.first().map(|v| v.deltas.len()).unwrap_or(0)})).collect::<Vec<_>>()})
+    };
+    let table = match guard(|| Gvar::new(vars, axes)) {
+        Ok(Ok(t)) => t,
+        Ok(Err(_)) => {
+            ctx.count("type:Gvar:validate_rejected", 1);
+            return;
+        }
+        Err(p) => {
+            ctx.judge_panic(&p, "Gvar::new", describe(), None);
+            return;
+        }
+    };
+    let bytes = match guard(|| dump_table(&table)) {
+        Ok(Ok(b)) => b,
+        Ok(Err(_)) => {
+            ctx.count("packing_failed", 1);
+            return;
+        }
+        Err(p) => {
+            ctx.judge_panic(&p, "dump of Gvar", describe(), None);
+            return;
+        }
+    };
+    let mut dg = Digest::new();
+    dg.str("Gvar");
+    dg.bytes(&bytes);
+    ctx.nontrivial(dg.finish());
+    ctx.label("types_round_tripped", "Gvar");
+    let r = guard(|| -> Result<(), String> {
+        let gv = read_fonts::tables::gvar::Gvar::read(FontData::new(&bytes)).map_err(|e| format!("read-error:{}", e))?;
+        if gv.axis_count() != axes {
+            return Err("axis_count".into());
+        }
+        if gv.glyph_count() as usize != glyphs.len() {
+            return Err("glyph_count".into());
+        }
+        for (gi, vs) in glyphs.iter().enumerate() {
+            let data = gv.glyph_variation_data(GlyphId::new(gi as u32)).map_err(|e| format!("glyph-read-error:{}", e))?;
+            let tuples: Vec<_> = match &data {
+                Some(d) => d.tuples().collect(),
+                None => vec![],
+            };
+            if tuples.len() != vs.len() {
+                return Err("tuple-count".into());
+            }
+            for (t, v) in tuples.iter().zip(vs.iter()) {
+                let peak: Vec<i16> = t.peak().values().iter().map(|x| x.get().to_bits()).collect();
+                if peak != v.tents.iter().map(|t| t.0).collect::<Vec<_>>() {
+                    return Err("peak".into());
+                }
+                let want: Vec<(i16, i16)> = v.tents.iter().map(|(p, i)| i.unwrap_or(implied(*p))).collect();
+                match (t.intermediate_start(), t.intermediate_end()) {
+                    (Some(a), Some(b)) => {
+                        let got: Vec<(i16, i16)> = a.values().iter().zip(b.values().iter()).map(|(x, y)| (x.get().to_bits(), y.get().to_bits())).collect();
+                        if got != want {
+                            return Err("intermediate".into());
+                        }
+                    }
+                    (None, None) => {
+                        if want.iter().zip(v.tents.iter()).any(|(w, (p, _))| *w != implied(*p)) {
+                            return Err("intermediate-missing".into());
+                        }
+                    }
+                    _ => return Err("intermediate-half".into()),
+                }
+                let got: Vec<(u16, i32, i32)> = t.deltas().map(|d| (d.position, d.x_delta, d.y_delta)).collect();
+                let all: Vec<(u16, i32, i32)> = v.deltas.iter().enumerate().map(|(i, d)| (i as u16, d.0 as i32, d.1 as i32)).collect();
+                let req: Vec<(u16, i32, i32)> = v.deltas.iter().enumerate().filter(|(_, d)| d.2).map(|(i, d)| (i as u16, d.0 as i32, d.1 as i32)).collect();
+                if t.has_deltas_for_all_points() {
+                    // no required delta at all: the writer emits an empty point
+                    // list (count 0 = "all points") with no deltas, i.e. every
+                    // optional delta omitted — allowed by `GlyphDelta::optional`
+                    if req.is_empty() && got.is_empty() {
+                        continue;
+                    }
+                    if got != all {
+                        return Err(if got.len() != all.len() { "delta-count-all".into() } else { "delta-value-all".into() });
+                    }
+                } else if got != req {
+                    return Err(if got.len() != req.len() { "delta-count-sparse".into() } else { "delta-value-sparse".into() });
+                }
+            }
+        }
+        Ok(())
+    });
+    match r {
+        Ok(Ok(())) => {
+            ctx.count("type:Gvar:roundtrip_equal", 1);
+            ctx.label("variants_seen", if bytes.get(15).map(|b| b & 1 == 1).unwrap_or(false) { "Gvar:long-offsets" } else { "Gvar:short-offsets" });
+        }
+        Ok(Err(what)) => {
+            ctx.violation(&format!("gvar-mismatch:{}", what), describe(), Some(&bytes));
+        }
+        Err(p) => ctx.judge_panic(&p, "read-back of a compiled Gvar", describe(), Some(&bytes)),
+    }
+}
+
+fn gvar_workload(ctx: &mut Ctx) {
+    let n = ctx.tier.pick(4000usize, 40000);
+    for i in 0..n {
+        if !ctx.mine(i) {
+            continue;
+        }
+        let mut rng = Rng::derive(ctx.seed, "gvar", i as u64);
+        // a few large cases force 32-bit glyph data offsets
+        gvar_case(ctx, &mut rng, i, i % 500 == 7);
+    }
+}
+
 pub fn run_special(ctx: &mut Ctx) {
     glyph_workload(ctx);
+    gvar_workload(ctx);
 }
 
 pub fn replay(_ctx: &mut Ctx, _rec: &Value) -> bool {
